@@ -45,26 +45,31 @@ def res_repr(r):
 
 
 class Gate:
-    def __init__(self, agents, events, clock):
+    def __init__(self, agents, events, clock, freeze=False, eager=False):
         self.agents, self.events, self.parked, self.clock = agents, events, [], clock
+        self.freeze, self.eager = freeze, eager     # freeze: the clock stands still (concurrent requests share their id); eager: the agent
+        self.args = {}                              # answers at once and the network delays / reorders the answers
 
     async def sender(self, endpoint, packet, timeout=None, retries=None):
         op = CURRENT.get()
         fut = asyncio.get_running_loop().create_future()
         k = sum(1 for e in self.events if e["e"] == "park" and e["op"] == op) + 1
-        self.parked.append((op, fut, bytes(packet), endpoint))
+        reply = self.agents[str(endpoint.ip)].handle(bytes(packet)) if self.eager else None
+        self.parked.append((op, fut, bytes(packet), endpoint, reply))
         self.events.append(dict(e="park", op=op, k=k))
-        self.clock[0] += 1            # the clock moves on between any two requests
+        self.args.setdefault(op, set()).add((timeout, retries))      # what the transport was asked to do for this operation
+        if not self.freeze:
+            self.clock[0] += 1            # the clock moves on between any two requests
         return await fut
 
     async def release(self, op):
-        for i, (o, fut, packet, endpoint) in enumerate(self.parked):
+        for i, (o, fut, packet, endpoint, reply) in enumerate(self.parked):
             if o == op:
                 del self.parked[i]
                 ag = self.agents[str(endpoint.ip)]
                 self.events.append(dict(e="release", op=op))
                 if not fut.done():
-                    fut.set_result(ag.handle(packet))
+                    fut.set_result(reply if reply is not None else ag.handle(packet))
                 return True
         return False
 
@@ -84,7 +89,7 @@ async def run_schedule(sc):
     nclients = sc.get("clients", 1)
     agents = {}
     clients = []
-    gate = Gate(agents, events, clock)
+    gate = Gate(agents, events, clock, freeze=bool(sc.get("freeze")), eager=bool(sc.get("eager")))
     from puresnmp import Client
     if sc.get("same_agent"):
         # several clients (different users, different pass-phrases, same hash) talk to ONE agent = one engine id
@@ -135,24 +140,26 @@ async def run_schedule(sc):
             await quiesce()
             guard += 1
         for key, t in tasks.items():
+            # the transport settings every request of the operation was sent with are part of what the operation "obtained"
+            args = repr(sorted(gate.args.get(key, set()), key=repr))
             if not t.done():
                 t.cancel()
-                events.append(dict(e="ret", op=key, kind="stuck", result=""))
+                events.append(dict(e="ret", op=key, kind="stuck", result="", transport=args))
                 continue
             if t.exception() is not None:
-                events.append(dict(e="ret", op=key, kind="exc", result=exc_name(t.exception())))
+                events.append(dict(e="ret", op=key, kind="exc", result=exc_name(t.exception()), transport=args))
             else:
-                events.append(dict(e="ret", op=key, kind="result", result=res_repr(t.result())))
+                events.append(dict(e="ret", op=key, kind="result", result=res_repr(t.result()), transport=args))
     finally:
         _clk.__exit__(None, None, None)
     return events
 
 
-def solo_results(proto, ops, clients, same_agent=False):
+def solo_results(proto, ops, clients, same_agent=False, **kw):
     out = {}
     for name, ci in ops:
         key = "%s@%d" % (name, ci)
-        ev = asyncio.run(run_schedule(dict(proto=proto, ops=[[name, ci]], order=[], clients=clients, same_agent=same_agent)))
+        ev = asyncio.run(run_schedule(dict(proto=proto, ops=[[name, ci]], order=[], clients=clients, same_agent=same_agent, **kw)))
         out[key] = [e for e in ev if e["e"] == "ret"][0]
     return out
 
